@@ -63,7 +63,8 @@ def oracle(case):
     script = fake_http.Script(responder)
     uris = case.get("uris") or URIS[:n]   # a configured list may name one endpoint several times (weights)
     n = len(uris)
-    node = RpcMultiNode(list(uris))
+    # (a pool of one node may also be given as a plain string, which the constructor accepts)
+    node = RpcMultiNode(uris[0] if case.get("as_string") and n == 1 else list(uris))
     with fake_http.patched(script):
         for i, o in enumerate(seq):
             state["req"], state["sub"] = i, 0
@@ -182,6 +183,7 @@ def _prop(case, stats):
 def run(h):
     L = 6 if h.quick else 8
     items = [{"n": n, "seq": list(s)} for n in (1, 2, 3, 4) for s in itertools.product(OUTCOMES, repeat=L)]
+    items += [{"n": 1, "seq": list(s), "as_string": True} for s in itertools.product(OUTCOMES, repeat=4)]
     h.exhaustive = True
     h.coverage_extra["exhaustive_subdomain"] = "all outcome sequences of length <=%d over 5 outcomes, 1..4 nodes" % L
     h.run_enum(items, _prop, shards=16)
